@@ -24,8 +24,10 @@ def run(repo, report, tier):
     report.guard("C20.R1", "ownership of the match list", r1_fresh_match_list, repo, report)
     report.guard("C20.R2", "add_match bodies", r2_tallies, repo, report)
     report.guard("C20.R3", "Statistics._collect_modifier", r3_collect, repo, report)
+    report.guard("C20.R3", "both mates are collected", r3_no_early_exit, repo, report)
     report.guard("C20.R6", "ErrorRanges call sites", r6_error_ranges, repo, report)
     report.guard("C20.R2", "histogram rows", r2_histogram_rows, repo, report)
+    report.guard("C20.R2", "text rendering of the tallies", r2_text_rendering, repo, report)
     report.guard("C20.R6", "per-adapter section of the text report", r6_per_adapter_values, repo, report)
     report.guard("C20.R6", "ErrorRanges boundaries", r6_range_boundaries, repo, report)
     report.notes.append("C20.R4 (merge of statistics is complete and additive) is C06.R4; C20.R5 (removed_sequence_length) is C03.R4. Not decided: the 'allowed errors' arithmetic of ErrorRanges (int(e/rate)-1 is not max{L: floor(L*rate) < e} when 1/rate is not an integer: -e 0.15, length 20 reports [5, 12, 19, 20], true [6, 13, 19, 20]) - a numeric defect seen while reading, outside the reach of a shape rule.")
@@ -568,3 +570,55 @@ def r6_range_boundaries(repo, report):
     # the adapter length closes the table
     tail = [x for x in ast.walk(fn) if isinstance(x, ast.Call) and isinstance(x.func, ast.Attribute) and x.func.attr == "append" and [src(a) for a in x.args] == [length]]
     report.ob("C20.R6", "ErrorRanges: the adapter length closes the table", len(tail) == 1, facts={"appends_length": len(tail)}, expected="lengths.append(self.length) unless the last boundary is the length itself", loc=repo.loc(fn))
+
+
+def r3_no_early_exit(repo, report):
+    """_collect_modifier walks over the (slot, modifier) entries of a paired wrapper: R1's modifier, then R2's.  Leaving the
+    walk early (break / return inside it) drops R2's tallies whenever the condition holds for R1 - e.g. when only -A/-Q
+    options were given and R1's modifier is None.  Skipping ONE entry (continue) is fine."""
+    c, fn = repo.need_method("Statistics", "_collect_modifier")
+    loops = [n for n in ast.walk(fn) if isinstance(n, ast.For) and isinstance(n.target, ast.Tuple) and len(n.target.elts) == 2]
+    if not loops:
+        raise Unrecognised("Statistics._collect_modifier: the loop over (slot, modifier) entries not found", repo.loc(fn))
+    bad = []
+
+    def scan(stmts):
+        for st in stmts:
+            if isinstance(st, (ast.Break, ast.Return)):
+                bad.append(f"{type(st).__name__.lower()} at line {st.lineno}")
+            elif isinstance(st, ast.If):
+                scan(st.body); scan(st.orelse)
+            elif isinstance(st, (ast.With, ast.Try)):
+                scan(st.body)
+    for lp in loops:
+        scan(lp.body)
+    report.ob("C20.R3", "Statistics._collect_modifier visits the modifier of each mate", not bad, facts={"loops": len(loops), "early_exits": bad}, loc=repo.loc(loops[0]),
+              expected="no break/return inside the loop over (slot, modifier)",
+              why=(f"{bad[0]}: when it fires for the first mate's entry, the second mate's modifier is never looked at and its with-adapter / quality-trimmed / per-adapter figures stay empty although R2 was trimmed" if bad else ""))
+
+
+def r2_text_rendering(repo, report):
+    """The text report prints what was tallied: every entry of a histogram row's error counts (a match with a deletion can
+    have more errors than the 'max.err' of its removed length, which is computed from the read side), and the percentages of
+    the adjacent bases are taken over ALL tallied matches, the 'none/other' bucket included."""
+    fn = repo.func("report", "histogram")
+    if fn is None:
+        raise Unrecognised("report.histogram not found")
+    loops = [n for n in ast.walk(fn) if isinstance(n, ast.For) and isinstance(n.iter, ast.Call) and chain(n.iter.func) == "histogram_rows"]
+    if len(loops) != 1 or not isinstance(loops[0].target, ast.Name):
+        raise Unrecognised("report.histogram: loop over histogram_rows(...) not found", repo.loc(fn))
+    row = loops[0].target.id
+    from ..repo import expand
+    uses = [x for x in ast.walk(loops[0]) if isinstance(x, ast.Attribute) and x.attr == "error_counts" and chain(x.value) == row]
+    sliced = [src(getattr(u, "_parent", u))[:60] for u in uses if isinstance(getattr(u, "_parent", None), ast.Subscript)]
+    joined = [x for x in ast.walk(loops[0]) if isinstance(x, ast.GeneratorExp) and any(isinstance(y, ast.Attribute) and y.attr == "error_counts" for y in ast.walk(expand(fn, x.generators[0].iter)))]
+    ok = bool(uses) and not sliced and all(not isinstance(expand(fn, g.generators[0].iter), ast.Subscript) and not g.generators[0].ifs for g in joined)
+    report.ob("C20.R2", "text histogram prints every error count of a row", ok, facts={"uses": len(uses), "sliced_or_filtered": sliced}, loc=repo.loc(loops[0]),
+              expected=f"' '.join(str(e) for e in {row}.error_counts) - all of them",
+              why="" if ok else "the error counts of a row are cut or filtered before printing: matches whose error count exceeds max.err of their length (deletions) disappear and the printed counts no longer add up to 'count'")
+    c, ai = repo.need_method("AdjacentBaseStatistics", "__init__")
+    tot = [n for n in ast.walk(ai) if isinstance(n, ast.Assign) and len(n.targets) == 1 and isinstance(n.targets[0], ast.Name) and isinstance(n.value, ast.Call) and chain(n.value.func) == "sum"]
+    ok2 = len(tot) == 1 and len(tot[0].value.args) == 1 and src(tot[0].value.args[0]) in ("self.bases.values()", f"{params(ai)[1]}.values()")
+    report.ob("C20.R2", "adjacent-base percentages are taken over all tallied matches", ok2, facts={"total": src(tot[0].value) if tot else None}, loc=repo.loc(ai),
+              expected="total = sum(self.bases.values())  (A, C, G, T and the none/other bucket)",
+              why="" if ok2 else "the denominator leaves out part of the tally (e.g. matches at read position 0 or after an N): the percentages do not add up to 100%, or the section disappears although matches were tallied")
